@@ -116,14 +116,17 @@ pub fn cells(tier: Tier) -> Vec<CellPlan> {
         c.alphabet = vec![
             EvOp::Nop,
             EvOp::World(Op::Ins(0, TB)),
-            EvOp::World(Op::Rm(0, TB)),
+            EvOp::World(Op::Mut(0, TA)),
             EvOp::EmitS(SK::E1, Mode::Broadcast, None),
-            EvOp::EmitS(SK::T1, Mode::Broadcast, None),
             if stop { EvOp::StopServer } else { EvOp::Disconnect(0) },
             if stop { EvOp::StartServer } else { EvOp::Nop },
             EvOp::Connect(0),
         ];
         c.alphabet.dedup();
+        if !q {
+            c.alphabet.push(EvOp::World(Op::Rm(0, TB)));
+            c.alphabet.push(EvOp::EmitS(SK::T1, Mode::Broadcast, None));
+        }
         c.init = vec![Op::Spawn(0, 1 << TA)];
         c.rounds = if q { 6 } else { 7 };
         c.closure_rounds = 6;
